@@ -51,9 +51,27 @@ func (h wHandler) coq() string {
 }
 
 type wCase struct {
-	name  string
-	guard bool // an additional condition on the namespace
-	h     wHandler
+	name    string
+	guard   bool // an additional condition on the namespace
+	h       wHandler
+	badCond bool // the additional condition is about something else than the namespace
+}
+
+// guardsAreNamespace: every conjunct of a case condition compares the local name or the namespace
+func guardsAreNamespace(e ast.Expr) bool {
+	switch x := e.(type) {
+	case *ast.ParenExpr:
+		return guardsAreNamespace(x.X)
+	case *ast.BinaryExpr:
+		if x.Op == token.LAND {
+			return guardsAreNamespace(x.X) && guardsAreNamespace(x.Y)
+		}
+		if _, _, ok := nameCond(x); ok {
+			return true
+		}
+		return isSpaceCond(x)
+	}
+	return false
 }
 
 type wWalker struct {
@@ -79,6 +97,23 @@ func isDecoderParam(fd *ast.FuncDecl) bool {
 	return false
 }
 
+// isSpaceCond: a comparison of the namespace of the element (X.Name.Space == ...)
+func isSpaceCond(e ast.Expr) bool {
+	switch x := e.(type) {
+	case *ast.ParenExpr:
+		return isSpaceCond(x.X)
+	case *ast.BinaryExpr:
+		if x.Op == token.EQL {
+			return strings.HasSuffix(exprStringDeep(x.X), ".Name.Space") || strings.HasSuffix(exprStringDeep(x.Y), ".Name.Space")
+		}
+	}
+	return false
+}
+
+// otherGuards: the conjuncts of a case condition that are neither the comparison of the local name nor one of the
+// namespace
+var otherGuards int
+
 // nameCond recognises `X.Name.Local == "lit"` possibly conjoined with other conditions
 func nameCond(e ast.Expr) (name string, guarded bool, ok bool) {
 	switch x := e.(type) {
@@ -89,9 +124,15 @@ func nameCond(e ast.Expr) (name string, guarded bool, ok bool) {
 			n1, _, ok1 := nameCond(x.X)
 			n2, _, ok2 := nameCond(x.Y)
 			if ok1 && !ok2 {
+				if !isSpaceCond(x.Y) {
+					otherGuards++
+				}
 				return n1, true, true
 			}
 			if ok2 && !ok1 {
+				if !isSpaceCond(x.X) {
+					otherGuards++
+				}
 				return n2, true, true
 			}
 			return "", false, false
@@ -99,8 +140,8 @@ func nameCond(e ast.Expr) (name string, guarded bool, ok bool) {
 		if x.Op == token.EQL {
 			for _, pr := range [][2]ast.Expr{{x.X, x.Y}, {x.Y, x.X}} {
 				if strings.HasSuffix(exprStringDeep(pr[0]), ".Name.Local") {
-					if bl, ok := pr[1].(*ast.BasicLit); ok && bl.Kind == token.STRING {
-						return unquote(bl.Value), false, true
+					if blv, ok := strLit(pr[1]); ok {
+						return blv, false, true
 					}
 				}
 			}
@@ -150,8 +191,8 @@ func (c *wCtx) handlerOf(stmts []ast.Stmt, where string) (wHandler, error) {
 			case "readElementText":
 				arg := "$cur"
 				if len(ce.Args) == 2 {
-					if bl, ok := ce.Args[1].(*ast.BasicLit); ok && bl.Kind == token.STRING {
-						arg = unquote(bl.Value)
+					if blv, ok := strLit(ce.Args[1]); ok {
+						arg = blv
 					} else if !strings.HasSuffix(exprStringDeep(ce.Args[1]), "Name.Local") {
 						err = fmt.Errorf("%s: readElementText with an end name that is neither a literal nor the current name", where)
 					}
@@ -187,78 +228,207 @@ func (c *wCtx) handlerOf(stmts []ast.Stmt, where string) (wHandler, error) {
 	return h, nil
 }
 
-// casesOf reads the dispatch on the local name out of a statement list
+// altHandlers: the handlers of the alternative paths through a statement list that branches by
+// `if cond { ...; return ... }`
+func (c *wCtx) altHandlers(stmts []ast.Stmt, where string) ([]wHandler, error) {
+	for i, s := range stmts {
+		is, ok := s.(*ast.IfStmt)
+		if !ok || is.Else != nil || len(is.Body.List) == 0 {
+			continue
+		}
+		if _, ret := is.Body.List[len(is.Body.List)-1].(*ast.ReturnStmt); !ret {
+			continue
+		}
+		prefix := append([]ast.Stmt{}, stmts[:i]...)
+		if is.Init != nil {
+			prefix = append(prefix, is.Init)
+		}
+		a, err := c.altHandlers(append(append([]ast.Stmt{}, prefix...), is.Body.List...), where)
+		if err != nil {
+			return nil, err
+		}
+		b, err := c.altHandlers(append(append([]ast.Stmt{}, prefix...), stmts[i+1:]...), where)
+		if err != nil {
+			return nil, err
+		}
+		return append(a, b...), nil
+	}
+	h, err := c.handlerOf(stmts, where)
+	if err != nil {
+		return nil, err
+	}
+	return []wHandler{h}, nil
+}
+
+// endsWithContinue: the statement list leaves the current iteration by itself
+func endsWithContinue(stmts []ast.Stmt) bool {
+	if len(stmts) == 0 {
+		return false
+	}
+	br, ok := stmts[len(stmts)-1].(*ast.BranchStmt)
+	return ok && br.Tok == token.CONTINUE
+}
+
+// nameAliases: local variables that hold the local name of the current element (name := t.Name.Local)
+func nameAliases(stmts []ast.Stmt) map[string]bool {
+	al := map[string]bool{}
+	for _, s := range stmts {
+		if as, ok := s.(*ast.AssignStmt); ok && len(as.Lhs) == 1 && len(as.Rhs) == 1 {
+			if id, ok := as.Lhs[0].(*ast.Ident); ok && strings.HasSuffix(exprStringDeep(as.Rhs[0]), "Name.Local") {
+				al[id.Name] = true
+			}
+		}
+	}
+	return al
+}
+
+// casesOf reads the dispatch on the local name out of a statement list: statements without reader calls, then a
+// switch or an if chain on the local name, then statements that every case which does not leave the iteration by
+// itself runs into (a skip shared by all cases)
 func (c *wCtx) casesOf(stmts []ast.Stmt, w *wWalker, where string) error {
-	if len(stmts) == 1 {
-		switch s := stmts[0].(type) {
-		case *ast.SwitchStmt:
-			tagged := s.Tag != nil && strings.HasSuffix(exprStringDeep(s.Tag), "Name.Local")
-			if tagged || s.Tag == nil {
-				for _, cl := range s.Body.List {
-					cc := cl.(*ast.CaseClause)
-					h, err := c.handlerOf(cc.Body, where)
-					if err != nil {
-						return err
-					}
-					if cc.List == nil {
-						w.def = h
-						continue
-					}
-					for _, e := range cc.List {
-						if tagged {
-							bl, ok := e.(*ast.BasicLit)
-							if !ok || bl.Kind != token.STRING {
-								return fmt.Errorf("%s: case label is not a string literal", where)
+	// if X.Name.Local != "lit" { ...; continue } followed by what is done for "lit"
+	if len(stmts) >= 1 {
+		if is, ok := stmts[0].(*ast.IfStmt); ok && is.Init == nil && is.Else == nil && endsWithContinue(is.Body.List) {
+			if be, ok := is.Cond.(*ast.BinaryExpr); ok && be.Op == token.NEQ {
+				for _, pr := range [][2]ast.Expr{{be.X, be.Y}, {be.Y, be.X}} {
+					if strings.HasSuffix(exprStringDeep(pr[0]), ".Name.Local") {
+						if nm, isLit := strLit(pr[1]); isLit {
+							other, err := c.handlerOf(is.Body.List, where)
+							if err != nil {
+								return err
 							}
-							w.cases = append(w.cases, wCase{unquote(bl.Value), false, h})
-						} else {
-							nm, g, ok := nameCond(e)
-							if !ok {
-								return fmt.Errorf("%s: case condition is not a comparison of the local name", where)
+							sub := &wWalker{def: wHandler{kind: "none"}}
+							if err := c.casesOf(stmts[1:], sub, where); err != nil {
+								return err
 							}
-							w.cases = append(w.cases, wCase{nm, g, h})
+							if sub.hasCases {
+								return fmt.Errorf("%s: a dispatch on the name after a negated name condition", where)
+							}
+							w.cases = append(w.cases, wCase{name: nm, h: sub.def})
+							w.def = other
+							w.hasCases = true
+							return nil
 						}
 					}
 				}
-				w.hasCases = true
-				return nil
+			}
+		}
+	}
+	k := -1
+	for i, s := range stmts {
+		switch s.(type) {
+		case *ast.SwitchStmt, *ast.IfStmt:
+			k = i
+		}
+		if k >= 0 {
+			break
+		}
+		if h, err := c.handlerOf([]ast.Stmt{s}, where); err != nil || h.kind != "none" {
+			break
+		}
+	}
+	if k >= 0 {
+		aliases := nameAliases(stmts[:k])
+		isName := func(e ast.Expr) bool {
+			if strings.HasSuffix(exprStringDeep(e), "Name.Local") {
+				return true
+			}
+			id, ok := e.(*ast.Ident)
+			return ok && aliases[id.Name]
+		}
+		trailing, err := c.handlerOf(stmts[k+1:], where)
+		if err != nil {
+			return err
+		}
+		var cs []wCase
+		def := wHandler{kind: "none"}
+		defGiven := false
+		type caseBody struct {
+			names  []string
+			guards []bool
+			body   []ast.Stmt
+			isDef  bool
+			bad    bool
+		}
+		var bodies []caseBody
+		ok := false
+		switch s := stmts[k].(type) {
+		case *ast.SwitchStmt:
+			tagged := s.Tag != nil && isName(s.Tag)
+			if s.Init == nil && (tagged || s.Tag == nil) {
+				ok = true
+				for _, cl := range s.Body.List {
+					cc := cl.(*ast.CaseClause)
+					cb := caseBody{body: cc.Body, isDef: cc.List == nil}
+					for _, e := range cc.List {
+						if tagged {
+							blv, isLit := strLit(e)
+							if !isLit {
+								return fmt.Errorf("%s: case label is not a string literal", where)
+							}
+							cb.names = append(cb.names, blv)
+							cb.guards = append(cb.guards, false)
+						} else {
+							nm, g, isCond := nameCond(e)
+							if !isCond {
+								return fmt.Errorf("%s: case condition is not a comparison of the local name", where)
+							}
+							cb.names = append(cb.names, nm)
+							cb.guards = append(cb.guards, g)
+							cb.bad = cb.bad || (g && !guardsAreNamespace(e))
+						}
+					}
+					bodies = append(bodies, cb)
+				}
 			}
 		case *ast.IfStmt:
 			// an if chain on the local name, every branch a handler
-			var cs []wCase
-			def := wHandler{kind: "none"}
+			ok = true
 			cur := ast.Stmt(s)
-			okChain := true
 			for cur != nil {
-				is, ok := cur.(*ast.IfStmt)
-				if !ok {
-					if blk, ok := cur.(*ast.BlockStmt); ok {
-						h, err := c.handlerOf(blk.List, where)
-						if err != nil {
-							return err
-						}
-						def = h
+				is, isIf := cur.(*ast.IfStmt)
+				if !isIf {
+					if blk, isBlk := cur.(*ast.BlockStmt); isBlk {
+						bodies = append(bodies, caseBody{body: blk.List, isDef: true})
 					}
 					break
 				}
-				nm, g, ok := nameCond(is.Cond)
-				if !ok || is.Init != nil {
-					okChain = false
+				nm, g, isCond := nameCond(is.Cond)
+				if !isCond || is.Init != nil {
+					ok = false
 					break
 				}
-				h, err := c.handlerOf(is.Body.List, where)
+				bodies = append(bodies, caseBody{names: []string{nm}, guards: []bool{g}, body: is.Body.List, bad: g && !guardsAreNamespace(is.Cond)})
+				cur = is.Else
+			}
+		}
+		if ok {
+			for _, cb := range bodies {
+				h, err := c.handlerOf(cb.body, where)
 				if err != nil {
 					return err
 				}
-				cs = append(cs, wCase{nm, g, h})
-				cur = is.Else
+				if trailing.kind != "none" && !h.stop && !endsWithContinue(cb.body) {
+					if h.kind != "none" {
+						return fmt.Errorf("%s: a case with a reader call runs into the reader call that follows the switch", where)
+					}
+					h = trailing
+				}
+				if cb.isDef {
+					def, defGiven = h, true
+					continue
+				}
+				for i, nm := range cb.names {
+					cs = append(cs, wCase{name: nm, guard: cb.guards[i], h: h, badCond: cb.bad})
+				}
 			}
-			if okChain {
-				w.cases = append(w.cases, cs...)
-				w.def = def
-				w.hasCases = true
-				return nil
+			if !defGiven {
+				def = trailing
 			}
+			w.cases = append(w.cases, cs...)
+			w.def = def
+			w.hasCases = true
+			return nil
 		}
 	}
 	// plain statements: one handler for every element.  A reader call under a condition on the name would make
@@ -270,9 +440,16 @@ func (c *wCtx) casesOf(stmts []ast.Stmt, w *wWalker, where string) error {
 			if !ok {
 				return true
 			}
-			if _, _, isName := nameCond(is.Cond); isName {
+			mentionsName := false
+			ast.Inspect(is.Cond, func(m ast.Node) bool {
+				if e, ok := m.(ast.Expr); ok && strings.HasSuffix(exprStringDeep(e), ".Name.Local") {
+					mentionsName = true
+				}
+				return true
+			})
+			if mentionsName {
 				h, _ := c.handlerOf(is.Body.List, where)
-				if h.kind != "none" {
+				if h.kind != "none" || endsWithContinue(is.Body.List) {
 					bad = true
 				}
 			}
@@ -295,6 +472,7 @@ func genWalkers(repo string) (string, error) {
 	if err != nil {
 		return "", err
 	}
+	constStrings = p.stringConsts()
 	c := &wCtx{p: p, readers: map[string]bool{}}
 	var fds []*ast.FuncDecl
 	for _, fd := range p.allFuncs() {
@@ -322,6 +500,9 @@ func genWalkers(repo string) (string, error) {
 		}
 		var loops []*ast.ForStmt
 		for _, s := range fd.Body.List {
+			if ls, ok := s.(*ast.LabeledStmt); ok {
+				s = ls.Stmt // Loop: for { ... break Loop ... }
+			}
 			if fs, ok := s.(*ast.ForStmt); ok {
 				loops = append(loops, fs)
 			}
@@ -352,7 +533,22 @@ func genWalkers(repo string) (string, error) {
 				}
 			}
 			if sw == nil {
-				return "", fmt.Errorf("%s: neither a token loop nor a dispatcher", where)
+				// a helper that hands the element on (or skips it) whatever its name: every path through its early
+				// returns does the same to the token stream
+				hs, err := c.altHandlers(fd.Body.List, where)
+				if err != nil {
+					return "", err
+				}
+				h := hs[0]
+				for _, o := range hs[1:] {
+					if o.kind != h.kind || o.arg != h.arg {
+						return "", fmt.Errorf("%s: the paths of the helper treat the token stream differently", where)
+					}
+				}
+				h.stop = false
+				w.def = h
+				ws = append(ws, w)
+				continue
 			}
 			if err := c.casesOf([]ast.Stmt{sw}, w, where); err != nil {
 				return "", err
@@ -366,15 +562,54 @@ func genWalkers(repo string) (string, error) {
 		}
 		w.loop = true
 		loop := loops[0]
-		if loop.Init != nil || loop.Post != nil {
+		if loop.Post != nil || (loop.Init != nil && loop.Cond == nil) {
 			return "", fmt.Errorf("%s: the token loop has an init or post statement", where)
 		}
+		depthVar := ""
 		if loop.Cond != nil {
-			// skipElement: for depth > 0
-			if exprStringDeep(loop.Cond.(*ast.BinaryExpr).X) != "depth" {
+			// skipElement: depth := 1 (before the loop or as its init statement); for depth > 0
+			be, ok := loop.Cond.(*ast.BinaryExpr)
+			if !ok {
+				return "", fmt.Errorf("%s: loop condition is not `counter > 0`", where)
+			}
+			zero, isLit := be.Y.(*ast.BasicLit)
+			if be.Op != token.GTR || !isLit || zero.Value != "0" {
+				return "", fmt.Errorf("%s: loop condition is not `counter > 0`", where)
+			}
+			id, ok := be.X.(*ast.Ident)
+			if !ok {
 				return "", fmt.Errorf("%s: loop condition is not the depth counter", where)
 			}
+			depthVar = id.Name
+			inits := []ast.Stmt{}
+			if loop.Init != nil {
+				inits = append(inits, loop.Init)
+			}
+			for _, s := range fd.Body.List {
+				if _, isFor := s.(*ast.ForStmt); isFor {
+					break
+				}
+				inits = append(inits, s)
+			}
+			startsAtOne := false
+			for _, s := range inits {
+				if as, ok := s.(*ast.AssignStmt); ok && len(as.Lhs) == 1 && len(as.Rhs) == 1 && exprStringDeep(as.Lhs[0]) == depthVar {
+					bl, isLit := as.Rhs[0].(*ast.BasicLit)
+					startsAtOne = isLit && bl.Value == "1"
+				}
+			}
+			if !startsAtOne {
+				return "", fmt.Errorf("%s: the depth counter does not start at 1", where)
+			}
 			w.depth = true
+		}
+		// in a depth loop a start element counts up and an end element counts down, and nothing else happens
+		depthClause := func(body []ast.Stmt, tok token.Token) bool {
+			if len(body) != 1 {
+				return false
+			}
+			ids, ok := body[0].(*ast.IncDecStmt)
+			return ok && ids.Tok == tok && exprStringDeep(ids.X) == depthVar
 		}
 		body := loop.Body.List
 		if len(body) < 3 {
@@ -404,8 +639,20 @@ func genWalkers(repo string) (string, error) {
 				if len(is.Body.List) != 1 {
 					return "", fmt.Errorf("%s: unexpected io.EOF handling", where)
 				}
-				if br, ok := is.Body.List[0].(*ast.BranchStmt); !ok || br.Tok != token.BREAK {
-					return "", fmt.Errorf("%s: io.EOF is not handled by break", where)
+				switch x := is.Body.List[0].(type) {
+				case *ast.BranchStmt:
+					if x.Tok != token.BREAK {
+						return "", fmt.Errorf("%s: io.EOF is not handled by break or return", where)
+					}
+				case *ast.ReturnStmt:
+					// return nil / return x, nil: the end of the input ends the walk without an error
+					if len(x.Results) > 0 {
+						if id, ok := x.Results[len(x.Results)-1].(*ast.Ident); !ok || id.Name != "nil" {
+							return "", fmt.Errorf("%s: io.EOF returns an error", where)
+						}
+					}
+				default:
+					return "", fmt.Errorf("%s: io.EOF is not handled by break or return", where)
 				}
 				w.eofOK = true
 			} else if be.Op == token.NEQ && exprStringDeep(be.Y) == "nil" {
@@ -424,6 +671,26 @@ func genWalkers(repo string) (string, error) {
 		if !sawErrReturn {
 			return "", fmt.Errorf("%s: the loop does not return when Token fails", where)
 		}
+		// instead of a type switch: x, ok := token.(xml.StartElement); if !ok { continue }; then the start-element branch
+		if idx+1 < len(body) {
+			if as2, ok := body[idx].(*ast.AssignStmt); ok && len(as2.Lhs) == 2 && len(as2.Rhs) == 1 {
+				if ta, ok := as2.Rhs[0].(*ast.TypeAssertExpr); ok && ta.Type != nil && exprStringDeep(ta.Type) == "xml.StartElement" {
+					okName := exprStringDeep(as2.Lhs[1])
+					if is, ok := body[idx+1].(*ast.IfStmt); ok && is.Init == nil && is.Else == nil && endsWithContinue(is.Body.List) && len(is.Body.List) == 1 {
+						if ue, ok := is.Cond.(*ast.UnaryExpr); ok && ue.Op == token.NOT && exprStringDeep(ue.X) == okName && !w.depth {
+							if err := c.casesOf(body[idx+2:], w, where); err != nil {
+								return "", err
+							}
+							if !w.eofOK {
+								return "", fmt.Errorf("%s: the loop never returns on an end element", where)
+							}
+							ws = append(ws, w)
+							continue
+						}
+					}
+				}
+			}
+		}
 		if idx != len(body)-1 {
 			return "", fmt.Errorf("%s: %d statements after the error checks (one type switch expected)", where, len(body)-idx)
 		}
@@ -431,6 +698,7 @@ func genWalkers(repo string) (string, error) {
 		if !ok {
 			return "", fmt.Errorf("%s: the loop body is not a type switch over the token", where)
 		}
+		sawUp, sawDown := false, false
 		for _, cl := range ts.Body.List {
 			cc := cl.(*ast.CaseClause)
 			if len(cc.List) != 1 {
@@ -439,14 +707,22 @@ func genWalkers(repo string) (string, error) {
 			switch exprStringDeep(cc.List[0]) {
 			case "xml.StartElement":
 				if w.depth {
-					continue // depth++
+					if !depthClause(cc.Body, token.INC) {
+						return "", fmt.Errorf("%s: a start element does not just count the depth up", where)
+					}
+					sawUp = true
+					continue
 				}
 				if err := c.casesOf(cc.Body, w, where); err != nil {
 					return "", err
 				}
 			case "xml.EndElement":
 				if w.depth {
-					continue // depth--
+					if !depthClause(cc.Body, token.DEC) {
+						return "", fmt.Errorf("%s: an end element does not just count the depth down", where)
+					}
+					sawDown = true
+					continue
 				}
 				for _, s := range cc.Body {
 					is, ok := s.(*ast.IfStmt)
@@ -463,8 +739,8 @@ func genWalkers(repo string) (string, error) {
 					if _, ok := is.Body.List[len(is.Body.List)-1].(*ast.ReturnStmt); !ok {
 						return "", fmt.Errorf("%s: EndElement branch does not return", where)
 					}
-					if bl, ok := be.Y.(*ast.BasicLit); ok && bl.Kind == token.STRING {
-						w.ends = append(w.ends, unquote(bl.Value))
+					if blv, ok := strLit(be.Y); ok {
+						w.ends = append(w.ends, blv)
 					} else if id, ok := be.Y.(*ast.Ident); ok && nameParams[id.Name] {
 						w.ends = append(w.ends, "$param")
 					} else if strings.HasSuffix(exprStringDeep(be.Y), "Name.Local") {
@@ -485,13 +761,83 @@ func genWalkers(repo string) (string, error) {
 				return "", fmt.Errorf("%s: unexpected token type %s", where, exprStringDeep(cc.List[0]))
 			}
 		}
+		if w.depth && !(sawUp && sawDown) {
+			return "", fmt.Errorf("%s: the depth loop does not count both start and end elements", where)
+		}
 		if !w.depth && len(w.ends) == 0 && !w.eofOK {
 			return "", fmt.Errorf("%s: the loop never returns on an end element", where)
 		}
 		ws = append(ws, w)
 	}
+	// a condition beside the name matters for the token stream only if the case does something else than the default
+	for _, w := range ws {
+		for i := range w.cases {
+			cs := &w.cases[i]
+			if cs.guard && cs.h.kind == w.def.kind && cs.h.arg == w.def.arg && cs.h.stop == w.def.stop {
+				cs.guard = false
+			}
+			if cs.guard && cs.badCond {
+				return "", fmt.Errorf("%s: the case for %q depends on a condition that is neither the name nor the namespace", w.name, cs.name)
+			}
+		}
+	}
+	// helpers without a token loop: one that does the same for every name is replaced by what it does; a dispatcher
+	// reached from a dispatcher is replaced by the handler it has for the name in question
+	byName := map[string]*wWalker{}
+	for _, w := range ws {
+		byName[w.name] = w
+	}
+	for iter := 0; iter < 6; iter++ {
+		for _, w := range ws {
+			resolve := func(h wHandler, name string) wHandler {
+				if h.kind != "sub" {
+					return h
+				}
+				g, ok := byName[h.arg]
+				if !ok || g.loop {
+					return h
+				}
+				if len(g.cases) == 0 {
+					r := g.def
+					r.stop = h.stop
+					return r
+				}
+				if !w.loop && name != "" {
+					r := g.def
+					for _, gc := range g.cases {
+						if gc.name == name && !gc.guard {
+							r = gc.h
+						}
+					}
+					r.stop = h.stop
+					return r
+				}
+				return h
+			}
+			for i := range w.cases {
+				w.cases[i].h = resolve(w.cases[i].h, w.cases[i].name)
+			}
+			if !w.loop && w.def.kind == "sub" {
+				if g, ok := byName[w.def.arg]; ok && !g.loop && len(g.cases) > 0 {
+					have := map[string]bool{}
+					for _, cs := range w.cases {
+						have[cs.name] = true
+					}
+					for _, gc := range g.cases {
+						if !have[gc.name] {
+							w.cases = append(w.cases, gc)
+						}
+					}
+					w.def = g.def
+					continue
+				}
+			}
+			w.def = resolve(w.def, "")
+		}
+	}
 	// how a sub call passes the end name: a literal second/third argument is not used by any walker with $param
 	// other than through the start element; recorded as the name of the current element.
+	_ = otherGuards
 	var b strings.Builder
 	b.WriteString("From Coq Require Import String List Bool.\nFrom WZ Require Import Model.Walk.\nImport ListNotations.\nOpen Scope string_scope.\n\n")
 	b.WriteString("Definition walkers : list walker := [\n")
